@@ -131,4 +131,31 @@ theorem add_inf {α : Type} [Add α] [Sub α] [Mul α] [Div α] [Neg α] [LT α]
 example : Normalised ⟨(2:ℚ)^52, 1 - 1/2^53⟩ := by
   refine ⟨⟨2^52, by norm_num⟩, by norm_num, by norm_num⟩
 
+/-! ## times are values: in-place `update` and fresh results (register reading, `JF.Time.Regs`) -/
+
+/-- `update` gives the target register the value of the source … -/
+theorem update_value {α : Type} (z : Time α) (s : Time.Regs α) (i j : Nat) (hi : i < s.length) :
+    (s.update z i j).get z i = s.get z j := by
+  simp [Time.Regs.update, Time.Regs.put, Time.Regs.get, List.getD, hi]
+
+/-- … and changes no other register: no object shares state with another one -/
+theorem update_frame {α : Type} (z : Time α) (s : Time.Regs α) (i j k : Nat) (hk : k ≠ i) :
+    (s.update z i j).get z k = s.get z k := by
+  simp [Time.Regs.update, Time.Regs.put, Time.Regs.get, List.getD, List.getElem?_set_ne (Ne.symm hk)]
+
+/-- a result bound to register `i` (`regs[i] = regs[j] + d`, `from_float`) leaves every other register alone; in particular
+the operand keeps its value -/
+theorem put_frame {α : Type} (z : Time α) (s : Time.Regs α) (i k : Nat) (t : Time α) (hk : k ≠ i) :
+    (s.put i t).get z k = s.get z k := by
+  simp [Time.Regs.put, Time.Regs.get, List.getD, List.getElem?_set_ne (Ne.symm hk)]
+
+/-- the comparisons of an updated register are those of the value it was updated to (exact reading): an object that got its
+fields through `update` orders like a freshly constructed time -/
+theorem update_cmp (z : Time ℚ) (s : Time.Regs ℚ) (i j k : Nat) (hi : i < s.length) :
+    Time.lt ((s.update z i j).get z i) (s.get z k) = Time.lt (s.get z j) (s.get z k) := by
+  rw [update_value z s i j hi]
+
+example : Time.Regs.get (⟨0, 0⟩ : Time ℚ) (Time.Regs.update ⟨0, 0⟩ [⟨0, 0⟩, ⟨6, 1/8⟩] 0 1) 0 = ⟨6, 1/8⟩ := by
+  rw [update_value _ _ _ _ (by decide)]; rfl
+
 end JF.C14
